@@ -342,6 +342,20 @@ func (x *Exec) externCall(f *frame, in ssa.Instruction, callee *ssa.Function, c 
 			return x.resultVal(st, callee.Signature, "epmap"), true
 		}
 	}
+	// mem.Reader / mem.BufferSlice (pooled buffer cursors): operations touch only the reader /
+	// the buffers' reference counts; results unconstrained except where stated
+	if strings.HasPrefix(name, "(*google.golang.org/grpc/mem.Reader).") || name == "(google.golang.org/grpc/mem.BufferSlice).Free" {
+		switch baseName(callee) {
+		case "Reset", "Close", "Discard", "Free", "Peek":
+			x.assumed["extern "+name+": changes only the reader's cursor / buffer reference counts (result unconstrained)"] = true
+			return x.resultVal(st, callee.Signature, "memrd"), true
+		case "Remaining":
+			x.assumed["extern (*mem.Reader).Remaining: number of unread bytes (>= 0), no effect"] = true
+			r := x.resultVal(st, callee.Signature, "remaining")
+			x.assume(st, sx(">=", f.toInt(r.T, callee.Signature.Results().At(0).Type()), "0"))
+			return r, true
+		}
+	}
 	// loggers and other effect-free helpers
 	if isEffectFree(name) {
 		x.assumed["extern "+name+": no effect on modelled state (logging/formatting/tracing)"] = true
